@@ -23,6 +23,7 @@ import (
 
 type c06Input struct {
 	Model    *gen.Model `json:"model"`
+	Prior    *gen.Model `json:"prior_model,omitempty"` // built first with the same builder value (history)
 	Orders   [][]string `json:"orders,omitempty"`
 	TypePerm []int      `json:"type_perm,omitempty"`
 	Permuted *gen.Model `json:"operand_permuted_model,omitempty"`
@@ -32,7 +33,8 @@ type c06Input struct {
 const c06Rule = "rapid-generated models of the graph profile; per model: real Build x8 and hook-enumerated DFS start orders (all permutations for <= 5 non-terminal " +
 	"nodes, else 2+16 sampled) must give one verdict and one canonical ULID-free dump (node/edge weights, wildcard sets, kinds, conditions); a rapid-drawn permutation of " +
 	"type_definitions must give the same verdict and dump; a rapid-drawn permutation of the operands of every union/intersection must leave every relation's weights " +
-	"unchanged; 8 goroutines building the same shared model and 4 other models concurrently must reproduce the sequential dumps (binary built with -race). " +
+	"unchanged; a builder value that built another rapid-drawn model before must give the same result as a fresh builder; 8 goroutines building the same shared model " +
+	"(half of them through one shared builder value) and 4 other models concurrently must reproduce the sequential dumps (binary built with -race). " +
 	"Non-trivial = model with a tuple cycle or >= 2 operators; distinct by model content."
 
 // c06RelWeights: verdict plus the weights of relation nodes only.
@@ -128,6 +130,21 @@ func c06Check(in c06Input, concurrent bool) (string, []string, *wgResult) {
 			known = append(known, "W2")
 		}
 	}
+	// (b2) one builder value reused after another model: the result must not depend on the history
+	if in.Prior != nil {
+		b := graph.NewWeightedAuthorizationModelGraphBuilder()
+		_, _ = b.Build(in.Prior.Proto())
+		for k := 0; k < 2; k++ {
+			wg, err := b.Build(in.Model.Proto())
+			d := "ERR"
+			if err == nil {
+				d = wgDump(wg)
+			}
+			if d != baseDump {
+				return fmt.Sprintf("a builder that built another model before gives a different result than a fresh builder: %s", firstDiffLine(baseDump, d)), nil, base
+			}
+		}
+	}
 	// (d) concurrent builds
 	if concurrent {
 		others := []*gen.Model{in.Model}
@@ -139,6 +156,7 @@ func c06Check(in c06Input, concurrent bool) (string, []string, *wgResult) {
 			want[i] = c06Dump(o)
 		}
 		shared := in.Model.Proto()
+		sharedBuilder := graph.NewWeightedAuthorizationModelGraphBuilder()
 		var wgp sync.WaitGroup
 		errs := make(chan string, 32)
 		for g := 0; g < 8; g++ {
@@ -146,7 +164,11 @@ func c06Check(in c06Input, concurrent bool) (string, []string, *wgResult) {
 			go func(g int) {
 				defer wgp.Done()
 				for it := 0; it < 3; it++ {
-					wg, err := graph.NewWeightedAuthorizationModelGraphBuilder().Build(shared)
+					b := sharedBuilder // half of the goroutines share one builder value, the others use fresh ones
+					if g%2 == 1 {
+						b = graph.NewWeightedAuthorizationModelGraphBuilder()
+					}
+					wg, err := b.Build(shared)
 					d := ""
 					if err != nil {
 						d = "ERR"
@@ -165,7 +187,11 @@ func c06Check(in c06Input, concurrent bool) (string, []string, *wgResult) {
 			go func(g int) {
 				defer wgp.Done()
 				i := g % len(others)
-				if d := c06Dump(others[i]); d != want[i] {
+				d := "ERR"
+				if wg, err := sharedBuilder.Build(others[i].Proto()); err == nil {
+					d = wgDump(wg)
+				}
+				if d != want[i] {
 					errs <- fmt.Sprintf("concurrent build of another model differs from the sequential one: %s", firstDiffLine(want[i], d))
 				}
 			}(g)
@@ -213,6 +239,9 @@ func TestC06(t *testing.T) {
 		}
 		if changed {
 			in.Permuted = pm
+		}
+		if rapid.IntRange(0, 2).Draw(rt, "history") == 0 {
+			in.Prior = gen.GraphModel(rt, gen.GraphOpts{MultiThis: true, SmallModels: true})
 		}
 		conc := rapid.IntRange(0, 3).Draw(rt, "conc") == 0
 		msg, known, res := c06Check(in, conc)
